@@ -71,7 +71,7 @@ def reorder_diff(a, b, path=""):
 
 
 def check_doc(res, label, text, optsets):
-    d = O.load_or_none(text)
+    d = O.load_or_none(text, label)
     if d is None:
         R.add_outcome(res, "unparsed")
         return
@@ -83,6 +83,8 @@ def check_doc(res, label, text, optsets):
         return
     tb = D.typed(D.strip_hidden(base))
     for o in optsets:
+        if label.startswith("RICHC") and "\n" not in o["newlinechar"]:
+            continue      # a space as newlinechar is only admissible when no comments are emitted
         if any(o["quote"] in s for s in strs) or any('"' in s for s in strs):
             R.add_outcome(res, "excluded_quote")
             continue
@@ -128,7 +130,7 @@ def sig_opts(o, d, text):
 
 def fails(d, text, o):
     try:
-        d = impl.loads(text)
+        d = copy.deepcopy(d)
         base = impl.loads(impl.dumps(d))
         got = impl.loads(impl.dumps(copy.deepcopy(d), **o))
     except Exception:
